@@ -588,6 +588,18 @@ theorem foldS_perm (g : Agg) {l l' : List V} (h : l.Perm l') : foldS g l = foldS
     (projs l).foldl g.loc 0 = (projs l').foldl g.loc 0)]
   cases l <;> cases l' <;> simp at hl ⊢
 
+theorem optStep_rightComm (g : Agg) (acc : Option Int) (x y : Int) :
+    optStep g (optStep g acc x) y = optStep g (optStep g acc y) x := by
+  cases acc with
+  | none => simp [optStep, glob_comm g x y]
+  | some a => simp [optStep, glob_rightComm g a x y]
+
+theorem reduceS_perm (g : Agg) {l l' : List V} (h : l.Perm l') : reduceS g l = reduceS g l' := by
+  unfold reduceS reduceInts
+  rw [(h.map V.proj).foldl_eq' (fun x _ y _ z => optStep_rightComm g z x y) none |>
+    fun e => (by simpa [projs] using e :
+      (projs l).foldl (optStep g) none = (projs l').foldl (optStep g) none)]
+
 theorem flatten_filter_nonempty (d : D) : (d.filter (fun l => !l.isEmpty)).flatten = d.flatten := by
   induction d with
   | nil => rfl
@@ -692,6 +704,8 @@ theorem semRel_frag (cfg : Cfg) (o : Orc) (n : Node) (hf : n.kind.orderInsensiti
     exact .un fun x y hr => rel_hom (List.map V.snd) rfl (by simp) (fun _ _ hp => hp.map _) hr
   case fold a g =>
     exact .un fun x y hr => rel_gather_fun _ (foldS g) (fun _ _ hp => by rw [foldS_perm g hp]) hr
+  case reduce a g =>
+    exact .un fun x y hr => rel_gather_fun _ (reduceS g) (fun _ _ hp => by rw [reduceS_perm g hp]) hr
   case foldA a g =>
     refine .un fun x y hr => rel_plain ?_
     simp only [gather, map_cons, map_nil, flatten_cons, flatten_nil, append_nil]
